@@ -123,14 +123,33 @@ SHADOW = '''    // user items shadowing the prelude names the generated code men
 '''
 
 
-def make_wrap(shadow, glob_variants):
+INHERENT = '''    // inherent associated functions named like the trait methods: the generated code must never reach them
+    impl {name} {{
+        pub fn default() -> Self {{ panic!("inherent default") }}
+        pub fn clone(&self) -> Self {{ panic!("inherent clone") }}
+        pub fn clone_from(&mut self, _s: &Self) {{ panic!("inherent clone_from") }}
+        pub fn eq(&self, _o: &Self) -> bool {{ panic!("inherent eq") }}
+        pub fn ne(&self, _o: &Self) -> bool {{ panic!("inherent ne") }}
+        pub fn cmp(&self, _o: &Self) -> ::core::cmp::Ordering {{ panic!("inherent cmp") }}
+        pub fn partial_cmp(&self, _o: &Self) -> ::core::option::Option<::core::cmp::Ordering> {{ panic!("inherent partial_cmp") }}
+        pub fn hash<HH>(&self, _s: &mut HH) {{ panic!("inherent hash") }}
+        pub fn fmt(&self, _f: &mut ::core::fmt::Formatter<'_>) -> ::core::fmt::Result {{ panic!("inherent fmt") }}
+        pub fn deref(&self) -> &u8 {{ panic!("inherent deref") }}
+        pub fn deref_mut(&mut self) -> &mut u8 {{ panic!("inherent deref_mut") }}
+        pub fn into(self) -> u8 {{ panic!("inherent into") }}
+    }}
+'''
+
+
+def make_wrap(shadow, glob_variants, inherent=False):
     def wrap(decl, t):
         inner = ''.join('    ' + l + '\n' for l in decl.splitlines())
         extra = ''
         if glob_variants and t.kind == 'enum' and t.variants:
             extra = f'    #[allow(unused_imports)]\n    use self::{t.name}::*;\n'
+        inh = INHERENT.format(name=t.name) if inherent and not t.generics else ''
         return ('pub mod hostile {\n    #![allow(dead_code, unused_imports, non_camel_case_types, non_snake_case, unused_variables)]\n    use educe::Educe;\n'
-                + (SHADOW if shadow else '') + extra + inner + '}\n' + f'pub use self::hostile::{t.name};\n')
+                + (SHADOW if shadow else '') + extra + inner + inh + '}\n' + f'pub use self::hostile::{t.name};\n')
     return wrap
 
 
@@ -297,6 +316,7 @@ def contexts(fields, upper, tier, seed):
     fb = fields[1::2] or fields
     vn = [u for u in upper if u not in ('Self',)] or ['None', 'Some']
     ctx = [('shadow', True, False, None, None),
+           ('inherent-methods', False, False, None, None, False, True),
            ('names-a', False, False, fa, None),
            ('names-b+shadow', True, False, fb, None),
            ('variants+glob', False, True, None, ['None', 'Some', 'Ok', 'Err', 'Ordering', 'Equal', 'Less', 'Greater', 'Option'] + vn[:6])]
@@ -326,9 +346,10 @@ def gen(tier, seed):
         for ci, ctx in enumerate(ctxs):
             tag, shadow, glob, fns, vns = ctx[:5]
             exact = len(ctx) > 5 and ctx[5]
-            if tier == 'quick' and (ti + ci) % 2 == 1 and tag not in ('shadow',):
+            inherent = len(ctx) > 6 and ctx[6]
+            if tier == 'quick' and (ti + ci) % 2 == 1 and tag not in ('shadow', 'inherent-methods'):
                 continue
-            model.TYPE_WRAP = make_wrap(shadow, glob)
+            model.TYPE_WRAP = make_wrap(shadow, glob, inherent)
             try:
                 m = mk(f'm{n:04d}', f'{name} @ {tag}', make_xf(fns, vns, ti * 5 + ci, exact=exact))
             finally:
